@@ -303,6 +303,10 @@ def run(rep, tier, seed):
     from contracts.c03_ctor import approx_ctor_contracts
     cs2, t2 = approx_ctor_contracts(tier)
     run_contracts(rep, cs2, t2, tier=tier, pid="C08", replayers=[(r"PersLandscapeApprox.__init__", _replay_ctor)])
+    # vectorize: every depth of the exact landscape sampled on the requested-else-derived grid (np.interp through its contract)
+    from contracts.c08_tools import vectorize_contracts
+    cs3, t3 = vectorize_contracts(tier)
+    run_contracts(rep, cs3, t3, tier=tier, pid="C08")
     ev = ctor_search(rep, 60 if tier == "quick" else 1500, random.Random(seed * 7 + 3))
     rep.bounded("grid-landscape constructor (run time)", "random lists of 1..3 diagrams with infinite bars at any position, grid ends given or derived", ev, ev,
                 "bars used == finite bars of dgms[hom_deg]; start / stop == given values else min birth / max finite death")
